@@ -307,7 +307,7 @@ execute (const scenario_t *sc, const char *property, result_t *res)
 	    for (c = 0; c < cnt && !res->violated; c++)
 	    {
 		int g2 = op->kind == G_FILL ? (int)(1 + sim_mod (A (1) + c, 60000)) : glyph;
-		int ox = op->kind == G_FILL ? 0 : (int)sim_clamp (A (2), -3, 3), oy = op->kind == G_FILL ? 0 : (int)sim_clamp (A (3), -3, 3);
+		int ox = op->kind == G_FILL ? 0 : (int)sim_clamp (A (2), -200000, 200000), oy = op->kind == G_FILL ? 0 : (int)sim_clamp (A (3), -200000, 200000);      /* origins are plain ints */
 		const void *p;
 		if (find (font, g2) >= 0) continue;            /* the API forbids inserting a present key */
 		if (nE >= MAXE) break;
@@ -515,7 +515,11 @@ generate (uint64_t seed, int tier, const char *property, scenario_t *sc)
 	else if (roll < 42)
 	{
 	    int fk = rng_chance (&r, 1, 12) ? (int)rng_range (&r, 1, 3) : 0;
-	    sc_add (sc, G_INSERT, 7, font, glyph, (int64_t)rng_range (&r, -3, 3), (int64_t)rng_range (&r, -3, 3), (int64_t)rng_n (&r, NIMG), (int64_t)fk, (int64_t)rng_range (&r, 1, 2));
+	    static const int64_t far[] = { 32767, -32768, 32768, -32769, 40000, -40000, 65538, -65534, 100000, -131071 };
+	    int64_t ox = rng_range (&r, -3, 3), oy = rng_range (&r, -3, 3);
+	    /* an origin is an int, not a 16-bit quantity: the glyph is then positioned far away so that it still lands in the destination */
+	    if (rng_chance (&r, 1, 8)) { if (rng_chance (&r, 1, 2)) ox = far[rng_n (&r, 10)]; else oy = far[rng_n (&r, 10)]; }
+	    sc_add (sc, G_INSERT, 7, font, glyph, ox, oy, (int64_t)rng_n (&r, NIMG), (int64_t)fk, (int64_t)rng_range (&r, 1, 2));
 	}
 	else if (roll < 58) sc_add (sc, G_LOOKUP, 2, font, glyph);
 	else if (roll < 72) sc_add (sc, G_REMOVE, 2, font, glyph);
